@@ -203,6 +203,118 @@ def lib_spec(paths):
     return spec
 
 
+# ---- 5. emission order of sub-entities: instantiation order, never address order ------------------------------------------
+# IdSet / IdMap keep insertion order, but their set algebra (IdSet.union, IdSet.__and__, IdMap.merge) goes through
+# Python sets of id() values: the order of the result depends on object addresses, i.e. on everything the process
+# allocated before.  The list Library.from_top_entity walks must therefore be the insertion-ordered set itself
+# (or an order-preserving copy), not the result of such an operation.
+from cohdl.utility.id_map import IdSet, IdMap  # noqa: E402
+
+
+class _AddressOrdered:
+    """result of id-set algebra: iteration order depends on object addresses"""
+
+
+def _address_ordered(it, *a, **k):
+    return SObj(_AddressOrdered, f_from=list(a))
+
+
+ADDRESS_ORDER_MODELS = [(IdSet.__dict__["union"], _address_ordered), (IdSet.__dict__["__and__"], _address_ordered), (IdMap.__dict__["merge"].__func__, _address_ordered)]
+
+
+def sub_entities_spec(sx, self):
+    stored = sx.real_args[0].fields["_sub_entities"]
+
+    def holds(res):
+        if res is stored:
+            return True
+        return isinstance(res, (list, tuple)) and len(res) == len(stored) and all(a is b for a, b in zip(res, stored))
+
+    return C.Pred(holds, "the sub-entities in instantiation order (insertion-ordered set or an order-preserving copy)")
+
+
+con = contract("cohdl._compiler.backend.vhdl._vhdl_repr:Entity.sub_entities", PROPS)
+for k in (0, 1, 3):
+    c = Case(f"{k}-instances", [Built([], (lambda k: lambda env: SObj(VR.Entity, _sub_entities=[SObj(VR.EntityInst, f_nr=i) for i in range(k)]))(k), lambda a: "None", lambda a: None)], sub_entities_spec)
+    c.native = False
+    c.models = ADDRESS_ORDER_MODELS
+    con.cases.append(c)
+
+# ---- 6. top-level converters work on a private copy of the function's scope ----------------------------------------------
+# FunctionDefinition objects (and their scope dicts) are cached for the lifetime of the interpreter.  The converter of
+# a context must therefore copy the scope (PrepareAst(..., mutable_scope=False), the default): with a shared scope the
+# local names bound by one compilation are still bound in the next one, which is then rejected ("name already used").
+from cohdl._compiler.frontend import _prepare_ast as PA2  # noqa: E402
+from cohdl._compiler.frontend import _prepare_ast_out as OUT2  # noqa: E402
+from cohdl._core._context import ContextType  # noqa: E402
+
+
+class _Conv:
+    """the PrepareAst instance created by the converter"""
+
+
+class _Ctx:
+    """the context being converted"""
+
+
+for _n in ("convert_call",):
+    setattr(_Conv, _n, lambda self: None)
+for _n in ("instantiate_fn", "name", "attributes", "source_location"):
+    setattr(_Ctx, _n, (lambda n: lambda self: None)(_n))
+    I.register_model(getattr(_Ctx, _n), (lambda n: lambda it, self: f"<{n}>")(_n))
+
+
+class _Call:
+    """out.Call stand-in"""
+
+
+_Call.code = lambda self: None
+I.register_model(_Call.code, lambda it, self: "<code>")
+I.register_model(_Conv.convert_call, lambda it, self: SObj(OUT2.Call))
+I.register_model(OUT2.Call.__dict__["code"], lambda it, self: "<code>")
+
+
+def converter_spec(kind):
+    def spec(sx, ctx):
+        it = sx.it
+
+        def holds(res):
+            made = it.made
+            if len(made) != 1:
+                return False
+            args, kw = made[0]
+            if list(args) != ["<instantiate_fn>", kind] or kw.get("mutable_scope", False) is not False or kw.get("parent") is not None:
+                return False
+            if not (isinstance(res, SObj) and res.kind is (OUT2.Sequential if kind is ContextType.SEQUENTIAL else OUT2.Concurrent)):
+                return False
+            return res.fields["f_args"][:2] == ["<name>", "<code>"]
+
+        return C.Pred(holds, "one converter for ctx.instantiate_fn() with a private scope copy; result carries name and code")
+
+    return spec
+
+
+def _mk_conv(it, args, kw):
+    it.made.append((args, kw))
+    return SObj(_Conv, _always_exprs="<always>", _sensitivity="<sens>")
+
+
+for fname, kind in (("convert_sequential", ContextType.SEQUENTIAL), ("convert_concurrent", ContextType.CONCURRENT)):
+    con = contract(f"cohdl._compiler.frontend._prepare_ast:PrepareAst.{fname}", PROPS)
+    c = Case("top-level-context", [Built([], lambda env: SObj(_Ctx), lambda a: "None", lambda a: None)], converter_spec(kind))
+    c.native = False
+    c.interp_flags = {"class_call_models": {
+        PA2.PrepareAst: _mk_conv,
+        OUT2.Sequential: lambda it, args, kw: SObj(OUT2.Sequential, f_args=list(args), f_kw=dict(kw)),
+        OUT2.Concurrent: lambda it, args, kw: SObj(OUT2.Concurrent, f_args=list(args), f_kw=dict(kw)),
+    }}
+
+    def _setup6(it, ctx, args, env):
+        it.made = []
+
+    c.setup = _setup6
+    con.cases.append(c)
+
 con = contract("cohdl._compiler.backend.vhdl._vhdl_repr:Entity._library_declaration", PROPS)
 for paths in ([], ["work"], ["liba"], ["liba", "libb"], ["libb", "liba", "libb"], ["LibC.sub", "liba", None, "libb"]):
     c = Case("paths-" + ("-".join(str(p) for p in paths) or "none"), [lib_shape(paths)], lib_spec(paths))
